@@ -113,7 +113,7 @@ func Run(tier string, seed int64, workers int) int {
 
 func Replay(rp *evidence.Replay) int {
 	if rp.FoundAt != "" && len(rp.FoundAt) > 0 && containsE2E(rp.FoundAt) {
-		return gharness.Replay(e2eSpec("quick", rp.Seed, 1), rp)
+		return gharness.Replay(e2eSpec(tierOf(rp), rp.Seed, 1), rp)
 	}
 	return gharness.Replay(Spec("quick", rp.Seed, 1), rp)
 }
@@ -125,4 +125,12 @@ func containsE2E(s string) bool {
 		}
 	}
 	return false
+}
+
+// tierOf recovers the tier a replay file was found in (the corpus size depends on it).
+func tierOf(rp *evidence.Replay) string {
+	if len(rp.FoundAt) >= 8 && rp.FoundAt[:8] == "thorough" {
+		return "thorough"
+	}
+	return "quick"
 }
